@@ -47,6 +47,7 @@ structure ModDesc where
   tableImports : Nat := 0
   globalImports : Nat := 0
   mems : List (Nat × Nat) := []        -- defined memories (min, max pages)
+  memShared : List Bool := []          -- `shared` flag of the k-th defined memory (missing = false); read only by Model.InitMem
   tables : List (Nat × Nat) := []      -- defined tables (min, max)
   globals : List ConstE := []           -- initialiser of every defined global
   datas : List DataSeg := []
